@@ -255,6 +255,9 @@ def finish(mod, args, parts, digests, inconclusive, t0, nsh):
     for reg, q in getattr(mod, "REGIONS", {}).items():
         if regions.get(reg, 0) < q * mult:
             inconclusive.append("region %s: %d cases < quota %d" % (reg, regions.get(reg, 0), q * mult))
+    for reg, q in getattr(mod, "REGIONS_FIXED", {}).items():       # enumerated (not sampled) strata: same quota on both tiers
+        if regions.get(reg, 0) < q:
+            inconclusive.append("region %s: %d cases < quota %d" % (reg, regions.get(reg, 0), q))
     for r in getattr(mod, "ROUTES", []):
         if route_evals.get(r, 0) == 0:
             inconclusive.append("route %s: zero monitor evaluations" % r)
